@@ -8,6 +8,7 @@ import KrillModel.Ca.LemmasReach
 import KrillModel.Ca.LemmasRoll
 import KrillModel.Ca.LemmasKeySync
 import KrillModel.Ca.LemmasActivate
+import KrillModel.Ca.LemmasTidyReach
 namespace KM.Props.C04
 open KM KM.CaK KM.AMap KM.Generated.ApplyDomain
 
@@ -267,8 +268,9 @@ whenever a child was unsuspended before (F-C02-1): see `activation_loses_stale_c
 Proved (`no_loss_no_dup_partial`): the statement under the two hypotheses that make it a
 statement about the activation command alone – before the command the current set publishes
 what the class holds (the `objects_mirror` relation of C01) and no key is both issued and
-suspended.  Missing: `objects_mirror` as an invariant of histories without unsuspension is not
-proved here.
+suspended.  `no_loss_no_dup_quiet_partial` removes the second hypothesis for histories without
+an unsuspension of a suspended child.  Missing: `objects_mirror` as an invariant (that is
+property C01) is not proved here.
 -/
 
 /-- If before activation the current set publishes exactly what the class holds and no issued
@@ -300,6 +302,31 @@ theorem no_loss_no_dup_partial {s s' : Sys} (h : Reachable s) {na : Int} {evs : 
       have := hns (key, cc) (mem_of_get hi)
       simp only [Bool.not_eq_true', Option.isSome_eq_false_iff, Option.isNone_iff_eq_none] at this
       simp [this]
+
+
+/-- In histories without the F-C02-1 trigger (`ReachableQ`: no certificate issued for a key that
+still has a suspended entry) the stale-entry hypothesis holds by itself: only C01's
+`objects_mirror` relation for the class is left as a hypothesis.  Missing for the full
+statement: `objects_mirror` as an invariant (property C01), and the histories with an
+unsuspension of a suspended child, where the statement is false (`activation_loses_stale_child`). -/
+theorem no_loss_no_dup_quiet_partial {s s' : Sys} (h : ReachableQ s) {na : Int} {evs : List Ev}
+    (hex : s.exec (.keyrollActivate na) = .stored evs s') {r : Rcn} {rc : Rc} {n c : CertKey}
+    (hg : get s.ca.classes r = some rc) (hk : rc.keys = .rollNew n c)
+    {ss cs : ObjSet} (hgo : get s.objs r = some (.staging ss cs))
+    (hom : ∀ nm : OName, (get cs.published nm).isSome =
+      (match nm with
+        | .prod k id => (get rc.products (k, id)).isSome
+        | .cer key => (get rc.certs.issued key).isSome)) :
+    ∃ cs' os', get s'.objs r = some (.old cs' os') ∧ os'.published = [] ∧
+      ∀ nm : OName, (get cs'.published nm).isSome = (get cs.published nm).isSome := by
+  have ht : TidyC rc.certs := reachableQ_tidy h r rc hg
+  have hns : rc.noStale = true := by
+    simp only [Rc.noStale, List.all_eq_true]
+    intro p hp
+    have hs : (get rc.certs.issued p.1).isSome = true :=
+      get_isSome_iff_mem_keys.mpr (List.mem_map.mpr ⟨p, hp, rfl⟩)
+    simp [ht.disj p.1 hs]
+  exact no_loss_no_dup_partial h.reachable hex hg hk hgo hom hns
 
 
 theorem activation_loses_stale_child :
